@@ -18,6 +18,7 @@ import (
 	"encoding/hex"
 	"encoding/json"
 	"fmt"
+	"path"
 	"regexp"
 	"sort"
 	"strings"
@@ -476,8 +477,22 @@ func (m *RuleManager) GetRuleGroups() []*RuleGroup {
 	return groups
 }
 
+// checkGroupID rejects group IDs that do not survive the storage key they are saved under: the key is
+// built with path.Join, which drops an empty ID and rewrites "//", "." and ".." elements, so that the group
+// would be stored under another key (possibly another group's) and be lost or misattributed on restart.
+func checkGroupID(id string) error {
+	const probe = "g"
+	if id == "" || path.Join(probe, id) != probe+"/"+id {
+		return errs.ErrRuleContent.FastGenByArgs(fmt.Sprintf("invalid rule group ID %q", id))
+	}
+	return nil
+}
+
 // SetRuleGroup updates a RuleGroup.
 func (m *RuleManager) SetRuleGroup(group *RuleGroup) error {
+	if err := checkGroupID(group.ID); err != nil {
+		return err
+	}
 	m.Lock()
 	defer m.Unlock()
 	p := m.beginPatch()
@@ -551,6 +566,11 @@ func (m *RuleManager) GetGroupBundle(id string) (b GroupBundle) {
 
 // SetAllGroupBundles resets configuration. If override is true, all old configurations are dropped.
 func (m *RuleManager) SetAllGroupBundles(groups []GroupBundle, override bool) error {
+	for _, g := range groups {
+		if err := checkGroupID(g.ID); err != nil {
+			return err
+		}
+	}
 	m.Lock()
 	defer m.Unlock()
 	p := m.beginPatch()
@@ -595,6 +615,9 @@ func (m *RuleManager) SetAllGroupBundles(groups []GroupBundle, override bool) er
 // SetGroupBundle resets a Group and all rules belong to it. All old rules
 // belong to the Group are dropped.
 func (m *RuleManager) SetGroupBundle(group GroupBundle) error {
+	if err := checkGroupID(group.ID); err != nil {
+		return err
+	}
 	m.Lock()
 	defer m.Unlock()
 	p := m.beginPatch()
